@@ -250,6 +250,7 @@ def _trig_axioms(eng, t):
         eng.add_axiom(z3.Implies(t == -b, z3.And(c == cb, s == -sb)))
         eng.add_axiom(z3.Implies(z3.Or(t == b + 2 * PI, t == b - 2 * PI), z3.And(c == cb, s == sb)))
         eng.add_axiom(z3.Implies(t == b, z3.And(c == cb, s == sb)))
+        eng.add_axiom(z3.Implies(z3.Or(t == 2 * PI - b, b == 2 * PI - t), z3.And(c == cb, s == -sb)))
     # link with inverse applications
     for u in _apps(eng, "arccos"):
         _acos_link(eng, u, t)
